@@ -107,8 +107,11 @@ func c15SessionPlan(seed int64, full bool) []c15Session {
 		// good token first, then a command without one
 		for _, second := range c15Protected {
 			if full {
+				for _, k := range bad {
+					add(conn, "valid,bad", c15MkStep(pick(c15NonTerminal), valid), c15MkStep(second, k))
+				}
 				for _, first := range c15NonTerminal {
-					for _, k := range bad {
+					for _, k := range bad[:2] {
 						add(conn, "valid,bad", c15MkStep(first, valid), c15MkStep(second, k))
 					}
 				}
@@ -137,7 +140,7 @@ func c15SessionPlan(seed int64, full bool) []c15Session {
 		// three commands
 		n3 := 1
 		if full {
-			n3 = 15
+			n3 = 10
 		}
 		for i := 0; i < n3; i++ {
 			last := c15Protected[(i+rng.Intn(5))%5]
@@ -267,16 +270,19 @@ func (j *c15Judge) judgeGiven(o *c15Obs, tab string) bool {
 	c := o.Cell
 	effect := len(o.Effects) > 0
 	hist := strings.TrimPrefix(c.History, ":")
+	if hist == "" {
+		hist = "fresh connection"
+	}
 	switch c.Exp {
 	case c15MustNot:
 		if effect {
 			j.run.Violation(fmt.Sprintf("%s:effect:%s:%s:%s%s", c.Origin, c.Cmd, c.Conn, c.Label, c.History),
-				fmt.Sprintf("%s: work %s over %s for a verifying work type with token %s %s took effect %v (reply %q); the statement demands a refusal without effect", c.Origin, c.Cmd, c.Conn, c.Label, hist, o.Effects, c15Trunc(o.Reply, 120)), o)
+				fmt.Sprintf("%s: work %s over %s for a verifying work type with token %s (%s) took effect %v (reply %q); the statement demands a refusal without effect", c.Origin, c.Cmd, c.Conn, c.Label, hist, o.Effects, c15Trunc(o.Reply, 120)), o)
 		}
 	case c15Must:
 		if !effect {
 			j.run.Violation(fmt.Sprintf("%s:control-refused:%s:%s:%s%s", c.Origin, c.Cmd, c.Conn, c.Label, c.History),
-				fmt.Sprintf("%s: work %s over %s for a verifying work type with token %s %s had no effect (reply %q)", c.Origin, c.Cmd, c.Conn, c.Label, hist, c15Trunc(o.Reply, 160)), o)
+				fmt.Sprintf("%s: work %s over %s for a verifying work type with token %s (%s) had no effect (reply %q)", c.Origin, c.Cmd, c.Conn, c.Label, hist, c15Trunc(o.Reply, 160)), o)
 		}
 	}
 	if tab != "" {
